@@ -146,6 +146,12 @@ pub fn run(run: &Run) {
     for f in fmts::all() {
         let mut vals: Vec<LN> = lexu::u_term(&f, 0, thorough).into_iter().map(LN::Term).collect();
         vals.extend(lexu::u_sent(&f));
+        // one name per identifier code point, as a bare word and as the predicate of a statement
+        for c in crate::universe::name_code_points(&f, run.tier) {
+            let w = lexu::atom("", &crate::universe::cp_name(c));
+            vals.push(LN::Term(LTerm::Statement { copula: f.e.statement.copula_inheritance.to_string(), subject: Box::new(lexu::atom("", "a")), predicate: Box::new(w.clone()) }));
+            vals.push(LN::Term(w));
+        }
         let distinct: std::collections::HashSet<&LN> = vals.iter().filter(|v| !matches!(v, LN::Term(LTerm::Atom { .. }))).collect();
         run.add_distinct(distinct.len() as u64);
         drop(distinct);
